@@ -95,6 +95,7 @@ func loadRepo(dir string, overlay map[string][]byte) (*Ctx, error) {
 	curCtx = c
 	paramCellMemo = map[*ssa.Parameter]*ssa.Alloc{}
 	fnKeyMemo = map[*ssa.Function]string{}
+	chanFieldAliasMemo = map[string]string{}
 	permMemo = map[*ssa.Function][]string{}
 	acquiredMemo = map[*ssa.Function]lockset{}
 	// Enumerate functions: package members, methods of every named type (AllFunctions misses methods of
@@ -159,6 +160,7 @@ func loadRepo(dir string, overlay map[string][]byte) (*Ctx, error) {
 	c.aliasOutlinedBodies()
 	paramCellMemo = map[*ssa.Parameter]*ssa.Alloc{}
 	fnKeyMemo = map[*ssa.Function]string{}
+	chanFieldAliasMemo = map[string]string{}
 	permMemo = map[*ssa.Function][]string{}
 	acquiredMemo = map[*ssa.Function]lockset{}
 	return c, nil
